@@ -1229,7 +1229,7 @@ class VM:
             if key_str == "name":
                 return obj.name
             if key_str == "prototype":
-                return getattr(obj, "_prototype", UNDEFINED) or UNDEFINED
+                return getattr(obj, "_prototype", UNDEFINED)
             return UNDEFINED
 
         if isinstance(obj, JSObject):
@@ -2408,6 +2408,11 @@ class VM:
             except ValueError:
                 pass  # Not a number, allow as string property
             obj.set(key_str, value)
+        elif isinstance(obj, JSFunction):
+            # Functions are not JSObjects; the one writable property they carry is
+            # `prototype`, which `new`, instanceof and reads of F.prototype consult.
+            if key_str == "prototype":
+                obj._prototype = value
         elif isinstance(obj, JSObject):
             # Check for setter
             setter = obj.get_setter(key_str)
@@ -2648,9 +2653,13 @@ class VM:
         if isinstance(constructor, JSFunction):
             # Create new object
             obj = JSObject()
-            # Set prototype from constructor's prototype property
-            if hasattr(constructor, "_prototype"):
-                obj._prototype = constructor._prototype
+            # Set prototype from constructor's prototype property; when that is not
+            # an object the instance inherits from Object.prototype
+            proto = getattr(constructor, "_prototype", None)
+            if not isinstance(proto, JSObject):
+                object_constructor = self.globals.get("Object")
+                proto = getattr(object_constructor, "_prototype", None)
+            obj._prototype = proto
             # Call constructor with new object as 'this'
             # Mark this as a constructor call so RETURN knows to return the object
             self._invoke_js_function(
